@@ -235,7 +235,7 @@ func VerifHarness_C01_reader_header() {
 	_ = r.Close()
 }
 
-var verifC01Prefixes = [...]string{"blob ", "tree ", "commit ", "tag ", "ofs-delta ", "ref-delta ", "blob", "tag  ", "Blob ", " "}
+var verifC01Prefixes = [...]string{"blob ", "tree ", "commit ", "tag ", "ofs-delta ", "ref-delta "}
 
 // Reader.Header on "<concrete type field>" followed by 0..M arbitrary bytes
 // (pass-through inflater, either end-of-stream behaviour): the size field
@@ -247,8 +247,7 @@ func VerifHarness_C01_reader_size_field() {
 	prefix := verifC01Prefixes[verifrt.Range(0, len(verifC01Prefixes)-1)]
 	m := verifrt.Range(0, verifrt.Param("M"))
 	out := append([]byte(prefix), verifrt.NondetBytes(m)...)
-	f, _ := plumbing.VerifC01Format(verifrt.Range(0, 1))
-	r, err := NewReader(bytes.NewReader(out), f)
+	r, err := NewReader(bytes.NewReader(out), "sha256")
 	verifrt.Assert(err == nil, "c01-reader-open")
 	verifC01CompareHeader(r, func() []byte { return out })
 	_ = r.Close()
